@@ -294,7 +294,7 @@ structure Prog2 where
 
 def callClobbers (clob : String) : List Nat :=
   let gs := splitOn1 clob '.'
-  let lim := [16, 32, 8, 8]
+  let lim := [32, 32, 8, 8]
   ((List.range gs.length).flatMap fun g =>
     let m := (Driver.parseHex? (gs.getD g "0")).getD 0
     (List.range (lim.getD g 0)).filterMap fun i => if m.testBit i then some (g * 64 + i) else none)
@@ -383,17 +383,22 @@ def translate (c : Ctx) (post : Bool) (nodes : Array Node) (twinOf : Nat → Opt
         | [.reg an art asz .., .reg bn brt bsz ..] => an == bn && art == brt && asz == bsz
         | [.reg an art asz .., .reg bn brt bsz .., .reg cn crt csz ..] => an == bn && art == brt && asz == bsz && bn == cn && brt == crt && bsz == csz
         | _ => false
-      let op0 : Option (Nat × Nat × Nat × Nat) := match n.ops.head? with      -- (loc, vs, wmask, emask) of a written register operand 0
-        | some (.reg an _ asz afl _ awm aem _ _) =>
+      let op0 : Option (Nat × Nat × Nat × Nat) := match n.ops.head?, twOps.head? with      -- (loc, vs, wmask, emask) of a written operand 0
+        | some (.reg an _ asz afl _ awm aem _ _), _ =>
           if afl.testBit 1 then (regLoc post an).map fun l => (l, (let s := twinVSize c twOps.head?; if s == 0 then asz else s), awm, aem) else none
-        | _ => none
+        | some (.mem _ _ mb mi md mfl), some (.reg _ _ rsz _ _ rwm rem _ _) =>     -- home slot substituted for the register
+          if post && mfl.testBit 1 && mi == "-" then (slotLoc c mb md).map fun l => (l, (let s := twinVSize c twOps.head?; if s == 0 then rsz else s), rwm, rem) else none
+        | _, _ => none
       let t := match op0 with
         | none => t
         | some (l0, vs, wm, em) =>
           let covers := (byteMask vs &&& ((wm ||| em) ^^^ (2 ^ 64 - 1))) == 0
           let extendsLive := (byteMask vs &&& em) != 0
           let imm1 : Option String := match n.ops with | [_, .imm v] => some v | _ => none
-          if sameRegs && sameRegZero n.name then { t with reads := if covers then [] else [l0], key := t.key ++ ["zero"] }
+          let srcSame : Bool := match n.ops with
+            | [_, .reg bn brt bsz .., .reg cn crt csz ..] => bn == cn && brt == crt && bsz == csz
+            | _ => sameRegs
+          if srcSame && sameRegZero n.name then { t with reads := if covers then [] else [l0], key := t.key ++ ["zero"] }
           else if sameRegs && sameRegKeep n.name && !extendsLive then { t with writes := t.writes.filter (· != l0), key := t.key ++ ["keep"] }
           else if n.name == "or" && imm1 == some "-1" && covers then { t with reads := t.reads.filter (· != l0), key := t.key ++ ["ones"] }
           else if imm1 == some "0" && immZeroKeep n.name && !extendsLive then { t with writes := t.writes.filter (· != l0), key := t.key ++ ["keep"] }
@@ -443,6 +448,11 @@ def translate (c : Ctx) (post : Bool) (nodes : Array Node) (twinOf : Nat → Opt
             | .reg an _ asz afl _ _ _ _ _, .mem msz _ mb mi md mfl =>
               if (isMoveName c.x86 n.name || isMemMoveName c.x86 n.name) && afl &&& 3 == 2 && mfl &&& 3 == 1 && mi == "-" && post then
                 match regLoc post an, slotLoc c mb md with
+                | some d, some s => some (d, s, min cap (if msz == 0 then asz else msz))
+                | _, _ => none
+              else if !c.x86 && isMemMoveName c.x86 n.name && afl &&& 3 == 1 && mfl &&& 3 == 2 && mfl &&& 0x2000 == 0 && mi == "-" && post then
+                -- AArch64 store `str reg, [sp, #off]`: register first, memory second
+                match slotLoc c mb md, regLoc post an with
                 | some d, some s => some (d, s, min cap (if msz == 0 then asz else msz))
                 | _, _ => none
               else none
@@ -589,6 +599,10 @@ def process (line : String) : String :=
       let vsize := vinfo.foldl (fun (a : Array Nat) v => a.set! (v.getD 0 0) (v.getD 2 0)) (Array.replicate nv 0)
       let vstack := vinfo.foldl (fun (a : Array Bool) v => a.set! (v.getD 0 0) (v.getD 4 0 == 1)) (Array.replicate nv false)
       let hasFp := ts.contains "fp=1"
+      let fval (k : String) : Int := match ts.find? (·.startsWith k) with | some t => ((t.drop k.length).toString.toInt?).getD 0 | none => 0
+      let saSp := fval "sa_sp="
+      let saSa := fval "sa_sa="
+      let saReg := (fval "sa_reg=").toNat
       let c : Ctx := { x86, spId := if x86 then 4 else 31, fpId := if hasFp then (if x86 then 5 else 29) else 9999, vsize, vstack }
       -- return locations: all FuncRet nodes must agree
       let retLists := preN.toList.filterMap fun n => if n.kind == 'R' then some n.locs else none
@@ -607,7 +621,14 @@ def process (line : String) : String :=
         match splitOn1 s ':' with
         | [v, l] =>
           if v == "-" then .ok none else
-          match virtLoc v, abiLoc c l with
+          -- an incoming stack argument `s<off>` lives at [sa register + (sa offset) + off] (FuncFrame)
+          let inLoc : Option Nat :=
+            if l.startsWith "s" && !l.endsWith "i" then
+              (l.drop 1).toString.toInt?.bind fun d =>
+                if saReg == c.spId then slotLoc c s!"p0.{c.spId}" (d + saSp)
+                else if saReg == c.fpId then slotLoc c s!"p0.{c.fpId}" (d + saSa) else none
+            else abiLoc c l
+          match virtLoc v, inLoc with
           | some pv, some pl => .ok (some (pv, pl))
           | _, _ => .error s!"unsupported argument {s}"
         | _ => .error "args"
@@ -627,7 +648,9 @@ def process (line : String) : String :=
         let bad := (List.range cert.size).findSome? fun q =>
           (cert[q]!).findSome? fun e => if checkEntry c.vsz pre.insts post.insts cert q e then none else some (q, e.p)
         match bad with
-        | some (q, p) => throw s!"reject pair {p}/{q} tag {post.tags.getD q 0}: {repr (post.insts.getD q default)} VS {repr (pre.insts.getD p default)}"
+        | some (q, p) =>
+          let eE := ((cert[q]!).find? (fun e => e.p == p)).map (·.E) |>.getD []
+          throw s!"reject pair {p}/{q} tag {post.tags.getD q 0}: {repr (post.insts.getD q default)} VS {repr (pre.insts.getD p default)} E={eE.take 80}"
         | none => throw "reject entry or argument relation"
     let oneLine (s : String) : String := String.ofList (s.toList.map fun ch => if ch == '\n' then ' ' else ch)
     match r with
